@@ -7,6 +7,7 @@ package zzverif
 // google/fhir JSON).  A failing call must leave resource and value untouched.
 
 import (
+	"encoding/json"
 	"bytes"
 	"errors"
 	"fmt"
@@ -64,7 +65,7 @@ func c18GenOp(s Src, root *Node) c18Op {
 		}
 		op.Steps = c02IndexedSteps(n, mask)
 	}
-	op.Filter = pickOne(s, []string{"", "", "", "", "first", "last", "where-true", "where-false", "index0", "extension-url", "where-id", "tail", "where-now", "where-not-now", "where-var"})
+	op.Filter = pickOne(s, []string{"", "", "", "", "first", "last", "where-true", "where-false", "index0", "extension-url", "where-id", "tail", "where-now", "where-not-now", "where-var", "where-noid-empty", "where-noid-not", "where-noid-count", "where-noext-count"})
 	op.Value = pickOne(s, []string{"same", "same", "same", "sibling", "wrong", "nil", "clone-of-target", "namesake"})
 	op.Index = s.Range(-1, 4)
 	if op.Op == "insert" && s.Prob(75) {
@@ -79,7 +80,9 @@ func c18GenOp(s Src, root *Node) c18Op {
 			n = pickOne(s, lists)
 			op.Steps = c02IndexedSteps(n, 0xffff)
 			op.Steps[len(op.Steps)-1].Idx = -1
-			op.Filter = pickOne(s, []string{"", "", "", "where-true"})
+			// mostly the list itself; sometimes the list (or a part of it) computed inside select()
+			// on the parent - the selected items are then not the whole field
+			op.Filter = pickOne(s, []string{"", "", "", "", "where-true", "where-true", "select-all", "select-take", "select-first", "select-tail"})
 			op.Index = s.Range(-1, len(n.Parent.Kids[n.Name])+1)
 			op.Value = pickOne(s, []string{"same", "same", "same", "clone-of-target", "wrong", "nil"})
 		}
@@ -254,6 +257,12 @@ func c18Gen(s Src) c18Case {
 
 func c18Path(typ string, op c18Op) string {
 	p := renderSteps(typ, op.Steps)
+	if strings.HasPrefix(op.Filter, "select-") && len(op.Steps) >= 1 && op.Steps[len(op.Steps)-1].Idx < 0 {
+		last := renderSteps("", op.Steps[len(op.Steps)-1:])
+		last = strings.TrimPrefix(last, ".")
+		inner := map[string]string{"select-all": last, "select-take": last + ".take(2)", "select-first": last + ".first()", "select-tail": last + ".tail()"}[op.Filter]
+		return renderSteps(typ, op.Steps[:len(op.Steps)-1]) + ".select(" + inner + ")"
+	}
 	switch op.Filter {
 	case "first":
 		p += ".first()"
@@ -278,6 +287,15 @@ func c18Path(typ string, op c18Op) string {
 		p += ".extension('http://example.org/a')"
 	case "where-id":
 		p += ".where(id.exists())"
+	// criteria that compute a value from an empty sub-collection
+	case "where-noid-empty":
+		p += ".where(id.empty())"
+	case "where-noid-not":
+		p += ".where(id.exists().not())"
+	case "where-noid-count":
+		p += ".where(id.count() = 0)"
+	case "where-noext-count":
+		p += ".where(extension.count() < 1)"
 	}
 	return p
 }
@@ -297,6 +315,9 @@ func c18Targets(root *Node, op c18Op) (nodes []*Node, ok bool) {
 		}
 	}
 	nodes = modelEval(root, op.Steps)
+	if strings.HasPrefix(op.Filter, "select-") {
+		return nodes, false // what a computed last step makes patchable is not spelt out: frame rules only
+	}
 	switch op.Filter {
 	case "":
 	case "first", "index0":
@@ -324,13 +345,17 @@ func c18Targets(root *Node, op c18Op) (nodes []*Node, ok bool) {
 			}
 		}
 		nodes = out
-	case "where-id":
+	case "where-id", "where-noid-empty", "where-noid-not", "where-noid-count", "where-noext-count":
 		var out []*Node
 		for _, n := range nodes {
 			if n.Synth || n.Msg == nil {
 				return nil, false
 			}
-			if len(n.Kids["id"]) > 0 {
+			kid := "id"
+			if op.Filter == "where-noext-count" {
+				kid = "extension"
+			}
+			if (len(n.Kids[kid]) > 0) == (op.Filter == "where-id") {
 				out = append(out, n)
 			}
 		}
@@ -877,6 +902,32 @@ func c18Exec(res fhir.Resource, path string, op c18Op, value fhir.Base) (err err
 	return
 }
 
+// jsonLeaves: the multiset of (path without indexes, scalar) pairs of a JSON document.
+func jsonLeaves(js string) map[string]int {
+	out := map[string]int{}
+	var v any
+	if json.Unmarshal([]byte(js), &v) != nil {
+		return out
+	}
+	var walk func(path string, x any)
+	walk = func(path string, x any) {
+		switch t := x.(type) {
+		case map[string]any:
+			for k, y := range t {
+				walk(path+"."+k, y)
+			}
+		case []any:
+			for _, y := range t {
+				walk(path, y)
+			}
+		default:
+			out[fmt.Sprintf("%s=%v", path, t)]++
+		}
+	}
+	walk("", v)
+	return out
+}
+
 func jsonOf(res proto.Message) string {
 	_, b, err := resJSON(res)
 	if err != nil {
@@ -963,6 +1014,9 @@ func c18Run(ctx *Ctx, c c18Case) {
 		if op.Filter != "" {
 			classes = append(classes, "filtered-target")
 		}
+		if strings.HasPrefix(op.Filter, "select-") {
+			classes = append(classes, fmt.Sprintf("computed-last-step:%s:success=%v", op.Op, perr == nil))
+		}
 		full := func() string { return strings.Join(history, "\n") + "\nresource before: " + clip(beforeJSON, 700) }
 		if pan.Panic != "" {
 			ctx.Fail("patch "+op.Op+": panic@"+pan.Panic, full())
@@ -1015,6 +1069,20 @@ func c18Run(ctx *Ctx, c c18Case) {
 		if predictable && len(targets) == 0 && changed != "" {
 			ctx.Fail("patch "+op.Op+": changed the resource although the path selects nothing ["+out.why+"]", full()+"\nafter: "+clip(jsonOf(res), 700))
 			break
+		}
+		if op.Op == "insert" {
+			// an insert only ever adds: every leaf of the JSON tree before is still there after
+			after := jsonLeaves(jsonOf(res))
+			lost := ""
+			for k, n := range jsonLeaves(beforeJSON) {
+				if after[k] < n && (lost == "" || k < lost) {
+					lost = k
+				}
+			}
+			if lost != "" {
+				ctx.Fail("patch insert: a successful insert removed or changed another element ["+out.why+"]", full()+"\nlost: "+clip(lost, 200)+"\nafter: "+clip(jsonOf(res), 700))
+				break
+			}
 		}
 		ctx.Count("unmodelled_success:" + out.why)
 	}
